@@ -192,6 +192,12 @@ func (m *Msg) headersAndBody(b []byte, off int, method string, eof bool) *Msg {
 		if i <= 0 || !isToken(string(l[:i])) {
 			return m.stop(StMalformed, AtHeaders, "bad header line "+strconv.Quote(trunc(string(l))))
 		}
+		// field-value = VCHAR / obs-text / SP / HTAB (RFC 7230 3.2): no other control bytes
+		for _, b := range l[i+1:] {
+			if (b < 0x20 && b != '\t') || b == 0x7f {
+				return m.stop(StMalformed, AtHeaders, "control byte in the value of header "+strconv.Quote(string(l[:i])))
+			}
+		}
 		m.Headers = append(m.Headers, Header{Name: string(l[:i]), Value: trimOWS(string(l[i+1:]))})
 	}
 	m.HeadLen = off
